@@ -27,7 +27,15 @@ def gen_c14(rng, t):
         for lt in "63BR":
             for l in range(4096):
                 d.add("HGEN %s %s %d" % (k, lt, l))
-    return [c, d]
+    # the answer for a word is a function of the word alone, whatever was read before: every padding word twice in a row behind
+    # a non-padding word, random words read twice, random walks
+    e = Case("c14_read_seq")
+    for p in range(4096):
+        e.add("HREAD %d" % rng.range(4096, 65535), "HREAD %d" % p, "HREAD %d" % p)
+    for _ in range(3000 * t):
+        w = rng.below(65536)
+        e.add("HREAD %d" % w, "HREAD %d" % rng.choice([w, w ^ (1 << rng.below(16)), rng.below(4096), rng.below(65536)]), "HREAD %d" % w)
+    return [c, d, e]
 
 
 LTS = {"6": 0, "3": 1, "B": 2, "R": 3}
@@ -116,6 +124,7 @@ def orc_c12(case, obs):
     bad = []
     last = None   # (pdu, ptype) of the last ENCAP/EEXT
     ctx = None
+    rx = None     # c12_rx cases: the train the receiver has accepted so far
     for (t, e, _), ob in zip(enc_ops(case, obs), obs):
         if t[0] == "CRC":
             exp = gse_crc(tok_bytes(t[1]), int(t[2]), int(t[3]), tok_bytes(t[4]))
@@ -135,6 +144,22 @@ def orc_c12(case, obs):
             crc = int(t[3]) if t[0] == "EFRAG" else (ctx[1] if ctx else None)
             if crc is not None and e.pkt[-4:] != crc.to_bytes(4, "big"):
                 bad.append("end packet trailer %s != context CRC %08x" % (e.pkt[-4:].hex(), crc))
+        elif t[0] == "DECAP" and case.name.startswith("c12_rx"):
+            p = parse_packet(tok_bytes(t[1]))
+            if isinstance(p, str):
+                continue
+            if p.kind == "F":
+                rx = {"fid": p.fid, "total": p.total, "pt": p.ptype, "lb": label_bytes(p.label), "data": bytes(p.payload)} if ob.startswith("ok fragmented") else None
+            elif p.kind == "I" and rx is not None and p.fid == rx["fid"]:
+                rx = dict(rx, data=rx["data"] + bytes(p.payload)) if ob.startswith("ok fragmented") else None
+            elif p.kind == "E" and rx is not None and p.fid == rx["fid"]:
+                if len(rx["data"]) + len(p.payload) + 2 + len(rx["lb"]) == rx["total"]:
+                    std = gse_crc(rx["data"] + bytes(p.payload), rx["pt"], rx["total"], rx["lb"])
+                    if p.crc == std and not ob.startswith("ok completed"):
+                        bad.append("trailer %08x is the CRC-32/MPEG-2 of total|type|label|PDU, the receiver answers %s" % (p.crc, ob[:40]))
+                    if p.crc != std and not ob.startswith("err Crc"):
+                        bad.append("trailer %08x differs from the CRC-32/MPEG-2 %08x the receiver has to recompute, it answers %s" % (p.crc, std, ob[:40]))
+                rx = None
         elif t[0] == "DECAPN" and ob.startswith("err Crc"):
             # every train in these cases is produced by the sender and delivered in order to a receiver that knows the chain
             bad.append("the receiver computes another CRC than the trailer the sender appended (err Crc on an unmodified train)")
@@ -175,6 +200,33 @@ def gen_c12(rng, t):
                                            rng.range(7 + lab_len(lab) + el, 8 + lab_len(lab) + el + pl // 2), exts_tok(ch)), "DECAPN -")
         for _ in range(4):
             c.add("EFRAGC %d 1" % rng.choice([8, 20, 400]), "DECAPN -")
+        out.append(c)
+    # the receiver's side alone: hand-built trains whose trailer is the standard CRC (must be delivered) or differs from it in
+    # one to four of its bytes, the others coinciding (must be refused with ErrorCrc); PDUs of 0, 1, .. bytes
+    for i in range(200 * t):
+        c = Case("c12_rx%d" % i)
+        lab = rng.choice([L6A, L3A, "B"])
+        pl = rng.choice([0, 0, 1, 2, rng.range(0, 40), rng.range(0, 200)])
+        pdu = rng.bytes(pl)
+        pt = rng.choice([0x0800, 0xFFFF, 0x86DD])
+        fid = rng.below(256)
+        c.add("DNEW 2 200 simple", "DPROV 200", "DPROV 201")
+        nf = rng.choice([1, 1, 2, 3])
+        sizes, left = [rng.range(0, min(pl, 20))], pl
+        left -= sizes[0]
+        for _ in range(nf - 1):
+            if left >= 1:
+                sizes.append(rng.range(1, max(1, left // 2)))
+                left -= sizes[-1]
+        pk = fragment(pdu, fid, pt, lab, sizes)
+        mode = rng.below(3)
+        if mode:
+            tr = bytearray(pk[-1][-4:])
+            for pos in rng.choice([[0], [1], [2], [3], [0, 1], [2, 3], [0, 1, 2], [1, 2, 3], [0, 1, 2, 3]]):
+                tr[pos] ^= rng.range(1, 255)
+            pk[-1] = pk[-1][:-4] + bytes(tr)
+        for q in pk:
+            c.add("DECAP %s" % hx(q))
         out.append(c)
     return out
 
@@ -275,7 +327,13 @@ def orc_c11(case, obs):
     rem_at_first = None
     all_big = True
     for (t, e, _), ob in zip(enc_ops(case, obs), obs):
-        if e is None or e.skip or e.panic:
+        if e is None or e.skip:
+            continue
+        if e.panic:
+            if t[0] == "EFRAGC" and ctx is not None and pdu is not None and len(pdu) <= 65535:
+                # neither a packet nor a rejection: the caller holding a valid context gets no answer at all
+                bad.append("encap_frag panics on a %s-byte buffer with %d bytes left instead of rejecting or filling it" % (t[1], len(pdu) - ctx[2]))
+                ctx = None
             continue
         if t[0] in ("ENCAP", "EEXT"):
             pdu, ctx = tok_bytes(t[1]), None
@@ -483,6 +541,8 @@ def orc_c15(case, obs):
             if lab == "R":
                 continue            # the caller asked for the marker: outside the policy clauses
             if lab == "B":
+                if lt == 3:
+                    bad.append("re-use marker written for a broadcast label (only a 3- or 6-byte label may be substituted): %s" % " ".join(t)[:80])
                 prev, run = None, 0
                 continue
             if lt == 3:             # substituted
@@ -503,7 +563,7 @@ def gen_c15(rng, t):
     for i in range(600 * t):
         c = Case("c15_%d" % i)
         c.add("ENEW")
-        labs = [L6A, L6A, L6A, L6B, L3A, "B", "R"]
+        labs = [L6A, L6A, L6A, L6B, L3A, "B", "R", L6C, L6A, L6D, L3C]      # L6C / L6D / L3C share three bytes with L6A
         for _ in range(rng.range(3, 30)):
             r = rng.below(20)
             if r < 13:
@@ -878,9 +938,14 @@ def gen_c01(rng, t):
             c.add("DPROV %d" % (max(maxpdu, pl) + 3 * k + rng.range(0, 2)))
         if i % 30 == 11:
             c.add("DPROV %d" % rng.choice([65536, 65537, 65536 + pl, 131072, 70000]))      # storages of 65536 bytes and more (taken first)
-        pre = rng.below(4)
+        pre = rng.below(5)
         if pre == 1 and lab != "B":
             c.add("ENCAP - 0 2048 %s 40 1" % lab, "DECAPN -", "DPROVBACK")     # same label: re-use next
+        elif pre == 4:
+            # same label, then a frame boundary: both label memories are reset, the label must be written in full
+            if rng.chance(0.3):
+                c.add("EENMAX %d" % rng.choice([1, 2, 255]))
+            c.add("ENCAP - 0 2048 %s 40 1" % lab, "DECAPN -", "DPROVBACK", "ERESET", "DRESET")
         elif pre == 2:
             c.add("ENCAP - 0 2048 %s 40 1" % rng.choice(LABELS), "DECAPN -", "DPROVBACK")
         elif pre == 3:
@@ -910,8 +975,8 @@ def orc_c01(case, obs):
         wire_ll = LT_LEN[(e.pkt[0] >> 4) & 3]
     else:
         # would a re-use substitution apply? (previous packet of the case carried the same label, re-use enabled)
-        prev = [o for o in case.ops[:i] if o.startswith("ENCAP")]
-        sub = bool(prev) and prev[-1].split(" ")[4] == lab and lab != "B" and "EDIS" not in case.ops
+        prev = [o for o in case.ops[:i] if o.startswith("ENCAP") or o == "ERESET"]
+        sub = bool(prev) and prev[-1] != "ERESET" and prev[-1].split(" ")[4] == lab and lab != "B" and "EDIS" not in case.ops
         wire_ll = 0 if sub else lab_len(lab)
     must = (2 + wire_ll + len(pdu) <= 4095) and (4 + wire_ll + len(pdu) <= bl)
     if must and not (e.ok and e.status == "C"):
@@ -1159,7 +1224,7 @@ def gen_c19(rng, t):
             elif r < 7:
                 c.add("EEXT %s %d 2048 %s %d 1 %s" % (pdu_tok(rng, pl), rng.below(256), lab, rng.choice([120, rng.range(20, 50)]), exts_tok(rand_chain(rng, maxn=3))))
             else:
-                c.add("EFRAGC %d 1" % rng.choice([8, 13, 30, 100]))
+                c.add("EFRAGC %d 1" % rng.choice([8, 13, 30, 100, 4, 5, 6, 7, 9, 10]))      # 4..6: intermediate packets of 1..3 bytes
             c.add("PEEKL %s" % hx(rng.bytes(rng.choice([0, 0, 3]))), "DECAPN -", "DPROVBACK")
         c.meta["c19"] = True
         out.append(c)
@@ -1230,6 +1295,10 @@ def gen_c07(rng, t):
                 fids.append(f)
         trains, exp = [], {}
         reuse_mode = (i % 5 == 3)      # the label memory is shared by all reassemblies: strays must not disturb it either
+        # a third PDU re-using the label of the second one, its first fragment right behind the end of the first PDU (other label):
+        # finishing a reassembly must leave the label memory alone
+        cross_mode = (i % 10 == 6) and ntr == 3
+        cross_labs = [rng.choice([L6A, L3A]), rng.choice([L6B, L3B])]
         for f in fids:
             pl = rng.range(2, maxpdu)
             pdu = rng.bytes(pl)
@@ -1245,18 +1314,45 @@ def gen_c07(rng, t):
             if not sizes:
                 sizes = [0]
             lab = rng.choice([L6A, L3A, "B", L6B]) if not reuse_mode else L6A
+            if cross_mode:
+                lab = cross_labs[0] if not trains else cross_labs[1]
             pt = rng.choice([0x0800, 0x86DD])
-            trains.append([(f, p) for p in fragment(pdu, f, pt, lab, sizes, wire_label=("R" if reuse_mode and trains else None))])
+            wire = "R" if (reuse_mode and trains) or (cross_mode and len(trains) == 2) else None
+            tr = [("own", f, p) for p in fragment(pdu, f, pt, lab, sizes, wire_label=wire)]
+            if not reuse_mode and not cross_mode and rng.chance(0.3):
+                # an abandoned attempt on the same id comes first (its end fragment never arrives): the same train (a
+                # retransmission), another PDU of the same length, label and type, or an unrelated one; the new first fragment restarts the id
+                v = rng.below(3)
+                if v == 0:
+                    old = [q for _, _, q in tr]
+                elif v == 1:
+                    s2, l2 = [], pl
+                    for j in range(rng.range(1, 3)):
+                        lo = 0 if j == 0 else 1
+                        if l2 - 1 < lo:
+                            break
+                        s2.append(rng.range(lo, l2 - 1))
+                        l2 -= s2[-1]
+                    old = fragment(rng.bytes(pl), f, pt, lab, s2 or [0])
+                else:
+                    p2 = rng.range(2, maxpdu)
+                    old = fragment(rng.bytes(p2), f, rng.choice([0x0800, 0x86DD]), rng.choice([L6A, L3A, "B", L6B]), [rng.range(0, p2 - 1)])
+                tr = [("old", f, q) for q in old[:rng.range(1, len(old) - 1)]] + tr
+            trains.append(tr)
             exp[f] = (pdu, pt, lab)
         # order-preserving merge
         seq = []
         pos = [0] * ntr
         if reuse_mode:
-            seq.append(("own",) + trains[0][0])       # the packet that carries the label comes first
+            seq.append(trains[0][0])       # the packet that carries the label comes first
             pos[0] = 1
+        if cross_mode:
+            seq = [trains[0][0], trains[1][0]] + trains[0][1:] + [trains[2][0]]
+            pos = [len(trains[0]), 1, 1]
+            reuse_mode = True              # strays: continuation packets only
         while any(pos[k] < len(trains[k]) for k in range(ntr)):
             k = rng.choice([k for k in range(ntr) if pos[k] < len(trains[k])])
-            seq.append(("own",) + trains[k][pos[k]])
+            seq.append(trains[k][pos[k]])
             pos[k] += 1
         # strays at random positions: aliasing continuation packets, unknown ids, complete packets, garbage
         nstray = rng.range(0, 6)
@@ -1331,10 +1427,13 @@ def gen_c16(rng, t):
     for i in range(500 * t):
         c = Case("c16_%d" % i)
         slots = rng.choice([1, 1, 2, 4])
+        wide = (i % 20 == 7)
+        if wide:
+            slots = rng.choice([255, 256, 257, 300])      # one slot per fragment id and more: the probe then uses the last ids
         maxpdu = rng.choice([8, 32, 64])
         mgr = rng.choice(["simple", "signal", MGR_ALL])
         c.add("DNEW %d %d %s" % (slots, maxpdu, mgr))
-        for k in range(rng.range(0, slots + 2)):
+        for k in range(rng.range(0, (slots if not wide else 2) + 2)):
             c.add("DPROV %d" % (maxpdu + 3 * k))
         # hostile history
         for _ in range(rng.range(3, 25)):
@@ -1360,11 +1459,12 @@ def gen_c16(rng, t):
         pl = rng.range(0, maxpdu)
         kind = rng.below(2)
         c.add("ENEW")
+        pfid = rng.below(256) if not wide else rng.choice([255, 255, 254, 0, rng.below(256)])
         if kind == 0:
-            c.add("ENCAP %s %d 2048 %s %d 1" % (pdu_tok(rng, pl), rng.below(256), lab, pl + 4 + lab_len(lab)), "DECAPN -")
+            c.add("ENCAP %s %d 2048 %s %d 1" % (pdu_tok(rng, pl), pfid, lab, pl + 4 + lab_len(lab)), "DECAPN -")
         else:
             pl = max(pl, 2)
-            c.add("ENCAP %s %d 2048 %s %d 1" % (pdu_tok(rng, pl), rng.below(256), lab, 7 + lab_len(lab) + rng.range(0, pl - 1)), "DECAPN -")
+            c.add("ENCAP %s %d 2048 %s %d 1" % (pdu_tok(rng, pl), pfid, lab, 7 + lab_len(lab) + rng.range(0, pl - 1)), "DECAPN -")
             for _ in range(pl + 2):
                 c.add("EFRAGC %d 1" % rng.choice([13, 20, 100]), "DECAPN -")
         c.meta["c16"] = rec
@@ -1379,6 +1479,11 @@ def orc_c16(case, obs):
     if rec is None:
         return bad
     prov = obs[rec - 1]
+    for op, ob in zip(case.ops[:rec], obs[:rec]):
+        if ob.startswith("PANIC") and op.startswith(("DECAP", "DPEEK")):
+            # a panic is the one history nothing comes after: the caller's receiver is gone with the unwinding call
+            bad.append("the history panics the decapsulator (%s): no receiver is left to recover" % op[:60])
+            return bad
     if not (prov == "ok" or prov.startswith("err Overflow")):
         return bad
     i = rec + 1
@@ -1408,7 +1513,7 @@ def gen_c04(rng, t):
         c.add("ENEW", "DNEW 4 64 %s" % (MGR_ALL if i % 5 else "tab:0005=N9;0007=N4;0042=N5;0081=F0;0082=F0;0033=F2"))
         for k in range(6):
             c.add("DPROV %d" % (64 + k))
-        labs = [L6A, L6A, L6A, L6B, L3A, "B", "R"]
+        labs = [L6A, L6A, L6A, L6B, L3A, "B", "R", L6C, L6A, L6D, L3C]      # L6C / L6D / L3C share three bytes with L6A
         for _ in range(rng.range(3, 25)):
             r = rng.below(24)
             if r < 14:
@@ -1484,6 +1589,9 @@ def orc_c04(case, obs):
                     bad.append("PDU sent with label %s (%s) delivered with label %s" % (intended, eop[:60], d["label"]))
             elif ample and e.status == "C" and (e.pkt[0] >> 4) & 3 != 3 and eop.startswith("ENCAP"):
                 bad.append("complete packet with an explicit/broadcast label not delivered: %s -> %s" % (eop[:60], ob[:60]))
+            elif ample and e.status == "F" and (e.pkt[0] >> 4) & 3 != 3 and eop.startswith("ENCAP"):
+                # free storages and 64-byte buffers throughout these cases: nothing entitles the receiver to refuse the start of a PDU
+                bad.append("first fragment with an explicit/broadcast label refused, its PDU can not be delivered: %s -> %s" % (eop[:60], ob[:60]))
     return bad
 
 
@@ -1561,31 +1669,58 @@ def burst(rng, data, lo_bit, hi_bit, maxlen=32):
 def big_trains(rng, prefix):
     """hand-built trains in a 70000-byte storage: (0) a legitimate PDU of the maximal 16-bit total length, (1) a train whose
     intermediate fragments push the reassembly beyond 65535 bytes, (2) a train that carries announced + 65536 bytes with the
-    CRC of the bytes really sent; only (0) may be delivered, and the storage buffer is never lost"""
+    CRC of the bytes really sent, (3) the legitimate maximal train with one spurious fragment that would cross 65535 bytes,
+    followed by the genuine rest, (4) a train of more than 65536 bytes announcing (bytes sent mod 65536) with the CRC of what a
+    16-bit offset would leave at the start of the storage; only (0) may be delivered, and the storage buffer is never lost"""
     out = []
-    for variant in (0, 1, 2):
+    for variant in (0, 1, 2, 3, 4):
         c = Case("%s_big%d" % (prefix, variant))
         lab = rng.choice([L6A, L3A, "B"])
         ll = len(label_bytes(lab))
         fid = rng.below(256)
         c.add("DNEW %d 70000 simple" % rng.choice([1, 2]), "DPROV 70000", "DPROV 70001")
-        if variant == 0:
+        if variant in (0, 3):
             n, total = 65535 - 2 - ll, 65535
         elif variant == 1:
             n, total = 65535 - 2 - ll + rng.range(1, 300), 65535
-        else:
+        elif variant == 2:
             total = rng.choice([1000, 105, 2 + ll + 1])
             n = total - 2 - ll + 65536
+        else:
+            n = 65536 + rng.range(50, 3000)
+            total = None
         data = gen_bytes(n, rng.below(1 << 30))
-        crc = gse_crc(data, 0x0800, total, label_bytes(lab))
-        off = rng.range(0, 4000)
-        c.add("DECAP %s" % hx(build_first(fid, total, 0x0800, lab, data[:off])))
-        while n - off > 4090:
+        off = rng.range(0, 4000) if variant != 4 else rng.range(0, 40)      # (4): the first fragment stays below the announced total
+        sizes = [off]
+        lim = 4090 if variant != 3 else 3000
+        if variant == 4:
+            lim = min(4090, n - 65536 - 1)          # the intermediate fragments alone carry more than 65536 bytes
+        while n - off > lim:
             k = rng.choice([4094, 4094, rng.range(1, 4094)])
             k = min(k, n - off - 1)
-            c.add("DECAP %s" % hx(build_inter(fid, data[off:off + k])))
+            sizes.append(k)
             off += k
-        c.add("DECAP %s" % hx(build_end(fid, data[off:], crc)), "DOBS")
+        if variant == 4:
+            # what a receiver whose write offset is 16 bits wide would hold: every fragment written at (bytes so far mod 65536)
+            img, cum = bytearray(80000), 0
+            pos = 0
+            for k in sizes + [n - off]:
+                img[cum & 0xFFFF:(cum & 0xFFFF) + k] = data[pos:pos + k]
+                cum, pos = ((cum & 0xFFFF) + k), pos + k
+            left = cum & 0xFFFF
+            total = left + 2 + ll
+            crc = gse_crc(bytes(img[:left]), 0x0800, total, label_bytes(lab))
+        else:
+            crc = gse_crc(data, 0x0800, total, label_bytes(lab))
+        pos = sizes[0]
+        c.add("DECAP %s" % hx(build_first(fid, total, 0x0800, lab, data[:pos])))
+        for k in sizes[1:]:
+            c.add("DECAP %s" % hx(build_inter(fid, data[pos:pos + k])))
+            pos += k
+        if variant == 3:
+            # one fragment too many: it would carry the reassembly to 65536 bytes or more
+            c.add("DECAP %s" % hx(build_inter(fid, gen_bytes(65536 - pos + rng.range(0, 40), 7))))
+        c.add("DECAP %s" % hx(build_end(fid, data[pos:], crc)), "DOBS")
         c.meta["c03"] = {"pdu": hx(data), "burst": False, "ptype": 0x0800}
         out.append(c)
     return out
@@ -1771,6 +1906,7 @@ prop("C03", ["c03_history_invariant", "c03_verified_only", "c03_train_opened", "
 # ------------------------------------------------------------------------------------------------
 def orc_c20(case, obs):
     bad = []
+    train, room = None, 0      # the fragment train a decapsulator has been given so far, and the size of its storages
     for op, ob in zip(case.ops, obs):
         t = op.split(" ")
         if t[0] == "UGEN":
@@ -1801,6 +1937,25 @@ def orc_c20(case, obs):
             elif p.kind == "F" and p.total > len(p.payload):
                 if w[:2] != ["ok", "fragmented"] or d.get("label") != p.label:
                     bad.append("the decapsulator refuses a well-formed first fragment (total %d, payload %d): %s" % (p.total, len(p.payload), ob[:80]))
+                else:
+                    train = {"fid": p.fid, "need": p.total - 2 - LT_LEN[p.lt], "total": p.total, "pt": p.ptype, "label": p.label,
+                             "lb": label_bytes(p.label), "data": p.payload}
+                    continue
+            elif p.kind == "I" and train is not None and p.fid == train["fid"] and len(p.payload) >= 1 \
+                    and len(train["data"]) + len(p.payload) <= min(train["need"], room):
+                # a generated intermediate packet continuing the generated first fragment, with room in the storage
+                if w[:2] != ["ok", "fragmented"] or d.get("label") != train["label"]:
+                    bad.append("the decapsulator refuses a well-formed intermediate packet of %d payload bytes: %s" % (len(p.payload), ob[:80]))
+                else:
+                    train["data"] += p.payload
+                    continue
+            elif p.kind == "E" and train is not None and p.fid == train["fid"] and len(train["data"]) + len(p.payload) == train["need"] \
+                    and train["need"] <= room and p.crc == gse_crc(train["data"] + p.payload, train["pt"], train["total"], train["lb"]):
+                if w[:2] != ["ok", "completed"] or d.get("data") != hx(train["data"] + p.payload) or d.get("label") != train["label"]:
+                    bad.append("the decapsulator refuses a well-formed end packet closing a consistent train: %s" % ob[:80])
+            train = None
+        elif t[0] == "DNEW":
+            train, room = None, int(t[2])
         elif t[0] == "UPARSE":
             data = tok_bytes(t[2])
             p = parse_packet(data)
@@ -1927,6 +2082,10 @@ def gen_c13(rng, t):
         if rng.chance(0.25) and lab != "B":
             c.add("ENCAP - 0 2048 %s 40 1" % lab, "DECAPN -", "DPROVBACK")       # next packet re-uses the label
         full = 4 + ll + tle + pl
+        if rng.chance(0.2):
+            # buffers refused before the one that is accepted (too small for any packet): must leave no trace in what follows
+            for _ in range(rng.choice([1, 2])):
+                c.add("EEXT %s %d %d %s %d %d %s" % (pdu_tok(rng, pl), fid, pt, lab, rng.range(0, min(full, 7) - 1), rng.below(99), exts_tok(ch)))
         if big:
             bl = rng.choice([full, full - 1, 4097, 4096, 5000, 7 + ll + tle + rng.range(0, 5)])
         else:
